@@ -203,6 +203,7 @@ func genAcc(tier string, seed uint64) {
 			}
 		}
 	}
+	emitShapes("acc", tier)
 	// very deep nesting
 	for _, f := range formats {
 		for _, d := range []int{100, 5000} {
